@@ -217,7 +217,15 @@ func normalizeToIntString(n numberParts) (string, bool) {
 		// unnecessarily constructing a large byte slice that may simply fail
 		// later on.
 		const maxDigits = 20 // Max uint64 value has 20 decimal digits.
-		if intpSize+exp > maxDigits {
+		// Without an integer part, leading zeroes of the fraction do not
+		// contribute digits to the result (e.g. 0.01e21 has 20 digits).
+		leadingZeroes := 0
+		if intpSize == 0 {
+			for leadingZeroes < fracSize && n.frac[leadingZeroes] == '0' {
+				leadingZeroes++
+			}
+		}
+		if intpSize+exp-leadingZeroes > maxDigits {
 			return "", false
 		}
 
